@@ -223,6 +223,7 @@ func (f *frame) enterLoop(li *loopInfo, in *State) *State {
 		f.havocHeaps(hs, ws.Sorted())
 	}
 	f.havocNext(hs)
+	hs.tagLo = hs.next // ids handed out by earlier iterations: covered by the loop invariants, not by the bookkeeping
 	li.hdrVals = map[ssa.Value]Val{}
 	for _, instr := range b.Instrs {
 		phi, ok := instr.(*ssa.Phi)
@@ -439,6 +440,9 @@ func (f *frame) execInstr(b *ssa.BasicBlock, instr ssa.Instruction, st *State) {
 		if isString(in.X.Type()) {
 			c.oblige(st, f.path, "safety:index", fmt.Sprintf("(and (<= 0 %s) (< %s (Str_len %s)))", idx, idx, x.T), "string index in range", in.Pos())
 			f.def(in, fmt.Sprintf("(Str_at %s %s)", x.T, idx), st)
+		} else if at, ok := in.X.Type().Underlying().(*types.Array); ok && strings.HasPrefix(g.TE.SortOf(in.X.Type()), "(Array Int ") {
+			c.oblige(st, f.path, "safety:index", fmt.Sprintf("(and (<= 0 %s) (< %s %d))", idx, idx, at.Len()), "array index in range", in.Pos())
+			f.def(in, fmt.Sprintf("(select %s %s)", x.T, idx), st)
 		} else {
 			subsetf("Index on %s", in.X.Type())
 		}
@@ -453,6 +457,7 @@ func (f *frame) execInstr(b *ssa.BasicBlock, instr ssa.Instruction, st *State) {
 		f.def(in, fmt.Sprintf("(mkslice %s 0 %s %s)", id, ln, cp), st)
 	case *ssa.MakeMap:
 		id := f.allocID(st)
+		f.tagAllocKind(st, id, in.Type(), false)
 		ref := fmt.Sprintf("(obj %s)", id)
 		dom, _, ks, _ := g.TE.MapHeaps(in.Type())
 		c.assume(st, fmt.Sprintf("(= (select %s %s) ((as const (Array %s Bool)) false))", st.Heap(dom), ref, ks))
@@ -573,9 +578,6 @@ func (f *frame) execUnOp(in *ssa.UnOp, st *State) {
 	case token.MUL:
 		pt := in.X.Type().Underlying().(*types.Pointer)
 		f.nilCheck(st, x, in.Pos(), "load")
-		if _, isArr := pt.Elem().Underlying().(*types.Array); isArr {
-			subsetf("load of array value")
-		}
 		t := f.load(x, pt.Elem(), st)
 		name := c.define(valName(in), c.g.TE.SortOf(pt.Elem()), t)
 		c.assume(st, c.wellFormed(name, pt.Elem(), st.next))
@@ -729,6 +731,7 @@ func (f *frame) execConvert(in *ssa.Convert, st *State) {
 		n := f.c.declare(valName(in), SSlice)
 		_ = uf
 		id := f.allocID(st)
+		f.tagAllocKind(st, id, in.Type(), true)
 		f.c.assume(st, fmt.Sprintf("(= %s (mkslice %s 0 (Str_len %s) (Str_len %s)))", n, id, x.T, x.T))
 		f.setVal(in, Val{T: n, Typ: in.Type()})
 	case from == SSlice && to == SStr:
